@@ -93,7 +93,9 @@ def rules(ctx: Ctx) -> None:
         raise AnalysisError("add_read not found")
     ctx.touched(ar)
     edges = [k for k in prog.walk_fn(ar) if isinstance(k, ast.Call) and isinstance(k.func, ast.Attribute) and k.func.attr == "add_edge"]
-    tagged = any(isinstance(k, ast.Call) and "_property_setter" in u(k.func) for k in prog.walk_fn(ar))
+    # the READ member of the tag enumeration is handed to a call (the tagging helper, or - once the helper is absorbed - add_node itself)
+    tagged = any(isinstance(k, ast.Call) and any(isinstance(x, ast.Attribute) and x.attr == "READ" for a_ in list(k.args) + [kw.value for kw in k.keywords] for x in ast.walk(a_))
+                 for k in prog.walk_fn(ar))
     ctx.ob("R08.5", "read-is-tagged", tagged, ar.loc(), "every read dataset gets the READ tag", trivial=True)
     for e in edges:
         atoms = [u(a) for a in controlling_atoms(prog.parents, e)]
